@@ -33,6 +33,7 @@ type schedCase struct {
 const (
 	hkChecked = "ibb.read.checked"
 	hkWoken   = "ibb.read.woken"
+	hkPayload = "ibb.payload.locked" // handlePayload holds readLock and has not yet touched the buffer
 )
 
 type readRes struct {
@@ -241,7 +242,24 @@ func (x *runner) runSched(c schedCase, origin string) bool {
 			d := hx.UnHex(l.D)
 			id := r.id("d")
 			from := r.peer.logLen()
+			// A reader blocked in its wait must not be woken before the data is in
+			// the buffer: park the handler inside its locked region, before it
+			// appends, and see whether the reader arrives at its wake-up point.
+			probe := pos == inRecv && !closed
+			p0 := g.Arrived(hkPayload)
+			if probe {
+				g.Block(hkPayload)
+			}
 			r.peer.send(dataStanza(true, id, sid, strconv.Itoa(seq), b64(d)))
+			if probe {
+				if g.WaitArrived(hkPayload, p0+1, watchdog) {
+					time.Sleep(3 * time.Millisecond)
+					if g.Arrived(hkWoken) > woken0 {
+						fail("C15/payload/notify-before-append", "a reader blocked in its wait is woken while handlePayload has not yet appended the packet's data (the wake-up can be consumed before there is anything to read)")
+					}
+				}
+				g.Unblock(hkPayload)
+			}
 			w, ok := r.peer.replyTo(id, from, watchdog)
 			if msg, alive := r.alive(); !alive {
 				key, what := "C15/payload/serve-aborted", "the serve loop ends on a valid data packet: "+msg
